@@ -120,9 +120,15 @@ c07 = simple("C07", [("MC_Curve.tla", "MC_Curve_split_TIER.cfg"), ("MC_Curve.tla
 c08 = simple("C08", [("MC_Curve.tla", "MC_Curve_arith_TIER.cfg")])
 c13 = simple("C13", [("MC_Curve.tla", "MC_Curve_eq_TIER.cfg")])
 c14 = simple("C14", [("MC_Curve.tla", "MC_Curve_clean_TIER.cfg")])
+c09 = simple("C09", [("MC_Curve.tla", "MC_Curve_deriv_TIER.cfg")])
+c11 = simple("C11", [("MC_Curve.tla", "MC_Curve_fitcurve_TIER.cfg")])
+c12 = simple("C12", [("MC_Curve.tla", "MC_Curve_fitpoints_TIER.cfg")])
+c17 = simple("C17", [("MC_KnotVector.tla", "MC_KvUnion_TIER.cfg")])
+c19 = simple("C19", [("MC_Misc.tla", "MC_Misc_project_TIER.cfg")])
+c20 = simple("C20", [("MC_Misc.tla", "MC_Misc_intersect_TIER.cfg")])
 
 CHECKS = {"C01": c01, "C02": c02, "C03": c03, "C04": c04, "C05": c05, "C06": c06, "C07": c07, "C08": c08,
-          "C13": c13, "C14": c14}
+          "C13": c13, "C14": c14, "C09": c09, "C11": c11, "C12": c12, "C17": c17, "C19": c19, "C20": c20}
 
 
 def run(prop, tier):
